@@ -5,7 +5,6 @@ package harness
 // the library's decoder.
 
 import (
-	"sync/atomic"
 	"bytes"
 	"context"
 	"crypto/ecdsa"
@@ -20,6 +19,7 @@ import (
 	"math/big"
 	"net"
 	"sync"
+	"sync/atomic"
 	"time"
 
 	lime "github.com/takenet/lime-go"
